@@ -88,7 +88,7 @@ func Supervise(a SupArgs) int {
 		return 2
 	}
 	s := &supervisor{a: a, total: newResult("*"), perStrm: map[string]*Result{}}
-	s.work = filepath.Join(a.Root, ".work", fmt.Sprintf("%s.%s", p.ID, a.Tier))
+	s.work = filepath.Join(a.Root, ".work", fmt.Sprintf("%s.%s.%d.%d", p.ID, a.Tier, a.Seed, os.Getpid()))
 	os.RemoveAll(s.work)
 	if err := os.MkdirAll(s.work, 0o755); err != nil {
 		fmt.Printf("HARNESS-ERROR %v\n", err)
